@@ -455,6 +455,8 @@ def apply_effects(ctx, sc, r):
                     ctx[e[1]] = ctx.get(e[1], 0) + e[2]
                 elif e[0] == "set":
                     ctx[e[1]] = e[2]
+                elif e[0] == "pop":
+                    ctx.pop(e[1], None)
     elif k == "ucall" and r[4] == "assign" and len(r) > 8 and isinstance(r[8], dict):
         ctx.update(r[8])
 
@@ -599,7 +601,7 @@ def oracle_c02(sc, res):
                 exited_before.setdefault(r[5][3:], r[SEQ])
             if r[K] == "trans":
                 t = m.trans.get(r[5])
-                if t is not None and t.event == etype and etype != "":
+                if t is not None and _fires_for(t, etype) and etype != "":
                     fired.append((t, r))
         fired_ids = [t.tid for t, _r in fired]
         sig_base = {"engine": sc["engine"], "event_kind": ek if ek != "plain" else ("raised" if rv[6] is None and etype.startswith("R") else "plain"),
@@ -715,6 +717,22 @@ def oracle_c04(sc, res):
             for e in op["events"]:
                 if "tag" in e:
                     accepted.setdefault(c, []).append(e["tag"])
+    # sends made by an observer hook while start() runs (status already "running"): accepted like any other, and they must
+    # wait for the initial entry instead of being processed inside the send() call, on top of the half-made start
+    open_hook = None
+    for r in res.trace:
+        k = r[K]
+        if k == "hook-send" and r[4] == root:
+            open_hook = r
+        elif k == "hook-sent" and r[4] == root:
+            if open_hook is not None and open_hook[6] == "running" and r[6] == "ok":
+                accepted.setdefault("hook", []).extend(open_hook[5])
+            open_hook = None
+        elif k == "recv" and r[4] == root and open_hook is not None and r[W] == open_hook[W] and r[6] is not None:
+            vios.append(Violation("C04", "processed-reentrantly-inside-send", {"engine": sc["engine"], "during_start": True},
+                                  f"event {r[5]} (tag {r[6]}) was processed inside the send() call an observer hook made while start() "
+                                  f"was still running (seq {r[SEQ]}), not after the initial entry had completed"))
+            break
     recv_tags = [r[6] for r in w.recv if r[6] is not None]
     counts = {}
     for t in recv_tags:
@@ -1499,7 +1517,7 @@ def normalise_trace(trace):
     out = []
     for r in trace:
         k = r[K]
-        if k in ("act", "recv", "guard", "gcall", "ucall", "actx", "svc-call", "svc-end", "sub", "emit", "fault"):
+        if k in ("act", "recv", "guard", "gcall", "ucall", "actx", "svc-call", "svc-end", "sub", "emit", "emit2", "emit3", "emitx", "fault"):
             out.append((k,) + tuple(r[4:]))
         elif k == "trans":
             out.append((k,) + tuple(r[4:8]) + (r[10],))
@@ -1536,8 +1554,9 @@ def run_c16(sc):
     base = None
     vios = []
     m = Model(sc["machine"])
-    for mode, val in variants:
+    for vi, (mode, val) in enumerate(variants):
         s2 = _copy.deepcopy(sc)
+        s2["fn_garbage"] = vi * 7 + (3 if vi else 0)
         if mode == "salt":
             s2["salt"] = val
             s2["hash_mode"] = "salted"
@@ -1572,6 +1591,8 @@ def run_c16(sc):
                         hist = t.target.kind == "history"
                     break
             kind = (a or b)[0] if len(a or b) > 1 else "record"
+            if str(kind).startswith("emit"):
+                kind = "emit"  # which of the listeners comes first under an address-ordered container is not stable
             names = sorted([str((a or ("",) * 3)[2]), str((b or ("",) * 3)[2])]) if len(a or b) > 2 else ["", ""]
             role = "entry" if all(n.startswith("en.") for n in names) else ("exit" if all(n.startswith("ex.") for n in names) else "other")
             vios.append(Violation("C16", "nondeterministic-trace",
@@ -1584,6 +1605,14 @@ def run_c16(sc):
 # ===========================================================================
 # C05 - engine equivalence (multi-execution runner)
 # ===========================================================================
+
+def _fires_for(t, etype):
+    """A recorded transition belongs to this event: declared under the identical key or under a descriptor matching it."""
+    if t.event == etype:
+        return True
+    from .model import match_descriptors
+    return t.kind == "on" and bool(match_descriptors({t.event: 1}, etype))
+
 
 def _norm_ev(etype):
     if etype is None:
@@ -1899,7 +1928,7 @@ def oracle_c06(sc, res):
                 exited.add(r[5][3:])
             elif r[K] == "trans":
                 t = m.trans.get(r[5])
-                if t is not None and t.event == etype and etype != "":
+                if t is not None and _fires_for(t, etype) and etype != "":
                     fired.append(t)
         fired_ids = [t.tid for t in fired]
         sig = {"engine": sc["engine"], "missing_involved": bool(names)}
